@@ -434,7 +434,7 @@ theorem insertFinish_frame (b : SecBuf) (ns n : BitVec 64) :
     (b.insertFinish ns n).entSize = b.entSize ∧ (b.insertFinish ns n).link = b.link ∧
     (b.insertFinish ns n).translatorEmpty = b.translatorEmpty ∧
     (b.insertFinish ns n).streamSize = (if b.translatorEmpty then b.streamSize + n else b.streamSize) := by
-  unfold SecBuf.insertFinish SecBuf.setSize
+  rw [SecBuf.insertFinish_hand]; unfold SecBuf.setSize
   cases b.cls <;> simp only <;> split <;> simp_all
 
 /-- `insert_data` either leaves the header alone or finishes with `set_size` + stream-size update -/
